@@ -996,7 +996,8 @@ pub fn run_one(
 }
 
 fn histories_for(n: usize, b: &Budget, rng: &mut Rng, ord: bool) -> Vec<Vec<Op>> {
-    let mut h = crate::hist::fixed_histories_ord(n, ord);
+    let interp = b.name.starts_with("miri");
+    let mut h = crate::hist::fixed_histories_level(n, ord, if interp { 0 } else { 1 });
     if n <= b.interleave_n {
         h.extend(exhaustive_interleavings(n));
     }
@@ -1197,7 +1198,12 @@ pub fn c07(vt: &VTable, m: &Model, b: &Budget, rng: &mut Rng, rep: &mut Report) 
             &[Op::Nth(1), Op::Count],
             &[Op::Next, Op::TryRFoldStop(2)],
         ];
-        for ops in basics {
+        let nb = if b.name.starts_with("miri") { 4 } else { basics.len() };
+        for (bi, ops) in basics.iter().enumerate() {
+            // interpreters: a rotating selection of the fixed histories per pair
+            if nb < basics.len() && (bi + a + bb) % basics.len() >= nb {
+                continue;
+            }
             run_one(&mut ctx, "range", &what, expect, ops, &call, None);
         }
         for _ in 0..b.range_hist {
